@@ -40,6 +40,7 @@ type cfg struct {
 	ival, freq       int // Throttling interval / Emit frequency (virtual ms)
 	seed             int
 	caps             []int // Join: per-input capacities
+	dl               int    // context deadline (virtual ms after the start); 0 = a plain WithCancel context
 	ek               string // [errkinds] kind of the error a failing element returns (errkinds_test.go); "" = plain
 }
 
@@ -78,6 +79,8 @@ func parseCfg(s string) cfg {
 			c.ival = iv
 		case "freq":
 			c.freq = iv
+		case "dl":
+			c.dl = iv
 		case "seed":
 			c.seed = iv
 		case "ek": // [errkinds]
@@ -444,6 +447,10 @@ func runScript(t *testing.T, line string) (res string) {
 	obs := []string{}
 	synctest.Test(t, func(t *testing.T) {
 		ctx, cancel := context.WithCancel(context.Background())
+		if c.dl > 0 {
+			// a caller's context with a deadline (virtual clock): cancelled by the runtime when the deadline passes
+			ctx, cancel = context.WithTimeout(context.Background(), time.Duration(c.dl)*time.Millisecond)
+		}
 		e := &env{c: c, gates: map[int]chan struct{}{}}
 		var ins []chan int
 		var outs []outp
